@@ -406,7 +406,7 @@ func C14Plan() *vlib.Plan {
 				if len(res.Violations) == 0 {
 					res.Outcome("ok-" + kind)
 				} else {
-					res.Outcome("VIOLATION-" + kind)
+					res.Outcome("finding-" + kind)
 				}
 				res.Sample = id
 				return res
